@@ -154,6 +154,19 @@ def _scenario(name, case, scratch):
             for nm in seq[1:]:
                 g.setLayout(nm)
                 ok = ok and lay.same(g.getAllData(), lay.block(G3, g.getLayout(nm)))
+            # a complex grid WITH save memory: the save buffer serves as receive buffer while nothing is saved (its datatype
+            # and size take part in the collectives), and holds the copy afterwards
+            s2 = LayoutSwapper(MPI.COMM_WORLD, [lp, lv, lpol], [nprocs, nprocs[0], nprocs[1]], eta[:3], 'mode_solve')
+            g2 = Grid(eta[:3], [None] * 3, s2, 'mode_solve', MPI.COMM_WORLD, dtype=np.complex128, allocateSaveMemory=True)
+            g2.getAllData()[:] = lay.block(G3, g2.getLayout('mode_solve'))
+            for k, nm in enumerate(seq[1:]):
+                if k == 1:
+                    g2.saveGridValues()
+                g2.setLayout(nm)
+                ok = ok and lay.same(g2.getAllData(), lay.block(G3, g2.getLayout(nm)))
+            if len(seq) > 2:
+                g2.restoreGridValues()
+                ok = ok and lay.same(g2.getAllData(), lay.block(G3, g2.getLayout(g2.currentLayout)))
             return ok
         return fn
     if name == 'S2p':
